@@ -172,6 +172,8 @@ impl Validator<'_> {
         // Used to check the absence of associativity attributes at the minimum level.
         let mut min_lvl = u32::MAX;
         let mut min_prec_ann: Option<&Attribute> = None;
+        // Level inherited by an alternative that has no precedence attribute of its own.
+        let mut last_lvl = 0;
 
         // Check that at least the first alternative has a precedence attribute
         alternatives
@@ -202,6 +204,7 @@ impl Validator<'_> {
                 match attr_prec.get_arg_equal() {
                     Some((name, value)) if name == &Atom::from(precedence::LVL_ARG) => {
                         if let Ok(lvl) = value.parse::<u32>() {
+                            last_lvl = lvl;
                             if lvl < min_lvl {
                                 min_lvl = lvl;
                                 min_prec_ann = attr_assoc_opt;
@@ -217,6 +220,10 @@ impl Validator<'_> {
                     Some((name, _)) => return_err!(attr_prec.id_span, "invalid argument `{}` for precedence attribute, expected `{}`", name, precedence::LVL_ARG),
                     None => return_err!(attr_prec.id_span, "missing argument for precedence attribute, expected `{}`", precedence::LVL_ARG),
                 }
+            } else if last_lvl == min_lvl && min_prec_ann.is_none() {
+                // The alternative inherits the level of the previous one: an associativity
+                // attribute here is an associativity on the minimum level as well.
+                min_prec_ann = attr_assoc_opt;
             }
 
             if let Some(attr_assoc) = attr_assoc_opt {
